@@ -27,6 +27,9 @@ CLAIMS = {
  'C06': dict(technique="runtime monitoring: every emitted text is parsed, elaborated and statically checked by vsim's conformance checker (names, scopes, typing, modes, case/select completeness, sensitivity, drivers) over hostile naming / expression / control-flow workloads",
              text="Exploration: seeded hostile-name designs over 13 declaration kinds, all operator x type-pair expressions with run-time and constant operands, generated bodies and un-clocked processes; a differential re-run classifies enum-literal findings.",
              ref="2 C06"),
+ 'C07': dict(technique="runtime monitoring: placement generator with verdict known by construction; accepted designs elaborated by vsim, whose per-bit driver ownership analysis and variable-scope rule observe the emitted architecture",
+             text="Exploration: target kind x writer/reader sites (two clocked contexts in std and core style, concurrent, always block, three instance outputs) x 8 write shapes; singles, pairs, sampled triples.",
+             ref="2 C07"),
  'C08': dict(technique="runtime monitoring: poison sanitizer in vsim (every compiler temporary is poisoned at the start of each process activation, reads are trapped) + independent path-enumeration oracle for must-reject placements",
              text="Exploration: every definition/use placement over small if/match/for-break skeletons incl. coroutine state crossings (small scope, exhaustive in thorough tier) and the C01/C03/C04 generators under the poison monitor.",
              ref="2 C08"),
